@@ -413,6 +413,23 @@ fn gen_nodes(rng: &mut Rng, n: usize, complex: bool) -> Vec<C64> {
             return v;
         }
     }
+    if style == 3 && n >= 2 && n <= 5 && (rng.below(2) == 0) {
+        // distinct points of the integer grid (real: -2..2; complex: Gaussian integers of modulus <= 2) in random
+        // order: node differences of modulus exactly 1 that are -1, +-i, ... as well as +1
+        let mut pool: Vec<C64> = vec![];
+        for a in -2i32..=2 {
+            for b in -2i32..=2 {
+                if (complex || b == 0) && a * a + b * b <= 4 {
+                    pool.push(C64::new(a as f64, b as f64));
+                }
+            }
+        }
+        rng.shuffle(&mut pool);
+        pool.truncate(n);
+        if pool.len() == n {
+            return pool;
+        }
+    }
     let mut v: Vec<C64> = vec![];
     if style == 2 {
         v.push(zc()); // a node exactly at the origin
